@@ -335,10 +335,27 @@ Proof.
   rewrite (H ns0 PNone sid0 room_ok_None). rewrite H by assumption. reflexivity.
 Qed.
 
+(* emit targets of the property's domain: a room name (None = everybody), or a non-empty list / tuple of names *)
+Definition target_ok (t : pv) : bool :=
+  match t with
+  | PList l | PTuple l => match l with [] => false | _ => forallb room_okb l end
+  | r => room_okb r
+  end.
+Lemma target_ok_addressed t : target_ok t = true -> Forall room_ok (addressed t).
+Proof.
+  destruct t; cbn [target_ok addressed]; intro H; try (constructor; [exact H|constructor]).
+  - apply Forall_forall. intros r Hr. destruct l; [discriminate|]. rewrite forallb_forall in H. apply H. exact Hr.
+  - apply Forall_forall. intros r Hr. destruct l; [discriminate|]. rewrite forallb_forall in H. apply H. exact Hr.
+Qed.
+Lemma target_ok_total m ns t : target_ok t = true -> exists l, participants m ns t = Ok l.
+Proof.
+  destruct t; cbn; try discriminate; eauto; destruct l; try discriminate; eauto.
+Qed.
+
 Definition act_ok (a : act) : Prop :=
   match a with
   | AEnter _ _ r | ALeave _ _ r | AClose r _ => name_ok r
-  | AEmit _ _ _ room _ _ => in_domain_target room = true
+  | AEmit _ _ _ room _ _ => target_ok room = true
   | _ => True
   end.
 
@@ -353,9 +370,9 @@ Definition local_dels (a : act) (m : mgr) : list (str * pkt) :=
   | _ => []
   end.
 
-Lemma parts_of_total m ns room : in_domain_target room = true -> exists l, parts_of m ns room = Ok l.
+Lemma parts_of_total m ns room : target_ok room = true -> exists l, parts_of m ns room = Ok l.
 Proof.
-  intro H. unfold parts_of. destruct (ns_rooms m ns); [apply participants_total; exact H|eauto].
+  intro H. unfold parts_of. destruct (ns_rooms m ns); [apply target_ok_total; exact H|eauto].
 Qed.
 
 (* ---- the single pieces ---- *)
@@ -609,7 +626,7 @@ Definition op_act (o : op) : act :=
 
 Definition op_ok (o : op) : Prop :=
   match o with
-  | Emit _ _ _ _ room _ cb => in_domain_target room = true /\ (cb <> None -> exists r, room = PStr r)
+  | Emit _ _ _ _ room _ cb => target_ok room = true /\ (cb <> None -> exists r, room = PStr r)
   | EnterRoom _ _ _ room | LeaveRoom _ _ _ room | CloseRoom _ _ room => name_ok room
   | _ => True
   end.
@@ -812,10 +829,8 @@ Qed.
 Lemma h_connect_spec k eio ns sid s :
   hst_ok s -> fresh_sid (h_mgr s) sid ->
   exists s', h_connect k eio ns sid s =
-             (s', [Deliver k eio (if match mem (h_mgr s) ns PNone sid with _ => true end then
-                                   match snd (mgr_connect (h_mgr s) eio ns sid) with
-                                   | Some x => PktConnect ns x | None => PktConnectError ns end
-                                 else PktConnectError ns)]) /\
+             (s', [Deliver k eio (match snd (mgr_connect (h_mgr s) eio ns sid) with
+                                  | Some x => PktConnect ns x | None => PktConnectError ns end)]) /\
     hst_ok s' /\
     match snd (mgr_connect (h_mgr s) eio ns sid) with
     | Some x => x = sid /\ (forall s0, mem (h_mgr s) ns PNone s0 <> Some eio) /\
@@ -829,8 +844,8 @@ Proof.
   intros (HW & Hp & HA) Hf. unfold h_connect.
   destruct (mgr_connect (h_mgr s) eio ns sid) as [m' r] eqn:E.
   destruct (mgr_connect_spec _ _ _ _ _ _ HW Hf E) as (HW' & Hp' & Hc' & Hres).
-  eexists. split; [reflexivity|]. cbn [h_mgr snd]. split.
-  - split; [exact HW'|]. split; [congruence|]. eapply AckInv_ext; [|exact HA]. exact Hc'.
+  exists (mkHst m' (h_parts s)). split; [reflexivity|]. cbn [h_mgr snd]. split.
+  - split; [exact HW'|]. split; [cbn [h_mgr]; congruence|]. eapply AckInv_ext; [|exact HA]. exact Hc'.
   - destruct r as [x|]; [exact Hres|]. destruct Hres as [Hs He]. split; [|exact He].
     intros ns' r' s0 Hr'. apply Hs. exact Hr'.
 Qed.
